@@ -1,5 +1,6 @@
 import Driver.Proto
 import ScrapliModel.Generated.Platforms
+import ScrapliModel.PlatformPriv
 namespace Driver.C17
 open Scrapli Scrapli.Rx Scrapli.Platform Scrapli.Gen.Platforms
 
@@ -10,7 +11,7 @@ of their UTF-8 bytes (`-` = empty).
 * `adv <name>` → `dom=<advertised?> spec=<NewPlatform(name) must succeed: file embedded, parses, has default>`
 * `def <file> <variant>` → `kind=<network|generic|none> err=<ok|badoption> loads=<constructs> ` ++ `Def.canon` of what
   `NewPlatform` (variant `-`) / `NewPlatformVariant` hands to `setDriver`; `none` when unknown
-* `wit <file> <variant>` → `lv=<key:witness:authWitness:targetable,…> cls=<key+key|key…> checks=<bits>`
+* `wit <file> <variant>` → `lv=<key:witness:authWitness:targetable:unambiguous,…> cls=<key+key|key…> checks=<bits> c04=<ok|exempt:tag|broken>`
 * `match <file> <variant> <key> <subject>` → `<levelMatches> <find span of the level pattern>`
 * `jfind <file> <variant> <key,key,…> <subject>` → find span of the joined pattern in that order
 * `graph <key/name/previous,…>` → `graph=<buildPrivGraph does not panic> tree=<singleTree> keyname=<keyEqName>`
@@ -83,9 +84,12 @@ def handleC17 : List String → String
     | none => "none"
     | some l =>
       "lv=" ++ showList (l.d.levels.map fun x =>
-          ":".intercalate [hexS x.key, toHex x.witness, toHex x.authWitness, b2s (targetable x)])
+          ":".intercalate [hexS x.key, toHex x.witness, toHex x.authWitness, b2s (targetable x), b2s (unambStart l.d x)])
         ++ " cls=" ++ "|".intercalate ((promptClasses l.d).map fun c => "+".intercalate (c.map hexS))
         ++ " checks=" ++ checksS l.d
+        ++ " c04=" ++ (match exemptTag c04Exempt l with
+            | some t => "exempt:" ++ t
+            | none => if c04Checks l.d then "ok" else "broken")
   | ["match", hf, hv, hk, hs] =>
     match lookupHex hf hv, unhexS hk, fromHex hs with
     | some l, some k, some s =>
